@@ -4,14 +4,11 @@ use std::fs::File;
 use std::io::BufRead;
 use std::io::BufReader;
 use std::ops::Add;
-use std::ops::Index;
 use std::path::Path;
-use std::sync::LazyLock;
-use regex::Captures;
 use regex::Error;
 use regex::Regex;
 
-use crate::util::error_exit;
+use crate::ignore::hg::{convert_path_glob, root_prefix};
 
 #[derive(Clone, Debug)]
 pub struct DockerignoreFilter {
@@ -72,15 +69,10 @@ pub fn matches_dockerignore_filter(
 
     let file_name = file_name.to_string().replace("\\", "/").replace("//", "/");
 
+    // the last matching line decides; a line starting with `!` re-includes
     for dockerignore_filter in dockerignore_filters {
-        let is_match = dockerignore_filter.regex.is_match(&file_name);
-
-        if is_match && dockerignore_filter.negate {
-            return false;
-        }
-
-        if is_match {
-            matched = true;
+        if dockerignore_filter.regex.is_match(&file_name) {
+            matched = !dockerignore_filter.negate;
         }
     }
 
@@ -141,39 +133,12 @@ fn convert_dockerignore_pattern(
     }
 }
 
-static DOCKER_CONVERT_REPLACE_REGEX: LazyLock<Regex> = LazyLock::new(|| {
-    Regex::new("(\\*\\*|\\?|\\.|\\*)").unwrap()
-});
-
 fn convert_dockerignore_glob(glob: &str, file_path: &Path) -> Result<Regex, Error> {
-    let mut pattern = DOCKER_CONVERT_REPLACE_REGEX
-        .replace_all(glob, |c: &Captures| {
-            match c.index(0) {
-                "**" => ".*",
-                "." => "\\.",
-                "*" => "[^/]*",
-                "?" => "[^/]",
-                _ => error_exit(".dockerignore", "Error parsing pattern"),
-            }
-            .to_string()
-        })
-        .to_string();
-
-    while pattern.starts_with("/") || pattern.starts_with("\\") {
-        pattern.remove(0);
-    }
-
-    #[cfg(windows)]
-    let path = file_path
-        .to_string_lossy()
-        .to_string()
-        .replace("\\", "/")
-        .replace("//", "/");
-
-    #[cfg(not(windows))]
-    let path = file_path.to_string_lossy().to_string();
-
-    pattern = path.replace("\\", "\\\\").add("/([^/]+/)*").add(&pattern);
+    // patterns are rooted at the directory of the .dockerignore file; a matched directory excludes what is below it
+    let glob = glob.trim_start_matches(['/', '\\']).trim_end_matches('/');
+    let pattern = root_prefix(file_path)
+        .add(&convert_path_glob(glob))
+        .add("(?:/|$)");
 
     Regex::new(&pattern)
 }
